@@ -51,6 +51,10 @@ def member_path(n):
         base = kids(n)
         b = member_path(base[0]) if base else ''
         return (b + '.' if b else '') + n['name']
+    if n.get('kind') == 'CXXDependentScopeMemberExpr':
+        base = kids(n)
+        b = member_path(base[0]) if base else ''
+        return (b + '.' if b else '') + n['member']
     if n.get('kind') == 'CXXThisExpr':
         return ''
     if n.get('kind') == 'DeclRefExpr':
@@ -91,7 +95,7 @@ class Tr:
             if nm in self.env:
                 return self.env[nm]
             raise TranslateError('unbound name %s' % nm)
-        if k == 'MemberExpr':
+        if k in ('MemberExpr', 'CXXDependentScopeMemberExpr'):
             p = member_path(n)
             if p in self.members:
                 return self.members[p]
@@ -117,6 +121,9 @@ class Tr:
             op = n['opcode']
             a, b = [self.expr(x) for x in kids(n)]
             ar = {'+': 'fadd', '-': 'fsub', '*': 'fmul', '/': 'fdiv'}
+            ty = (n.get('type', {}).get('desugaredQualType') or n.get('type', {}).get('qualType') or '')
+            if op in ('+', '-', '*') and ty in ('int', 'unsigned int', 'long', 'unsigned long', 'size_t', 'std::size_t'):
+                return '(%s %s %s)' % (a, op, b)       # integer arithmetic is exact (no overflow at these magnitudes)
             if op in ar:
                 return '(%s o %s %s)' % (ar[op], a, b)
             cmpo = {'<': '(%s < %s)' % (a, b), '>': '(%s < %s)' % (b, a), '<=': '(%s ≤ %s)' % (a, b), '>=': '(%s ≤ %s)' % (b, a),
